@@ -344,7 +344,7 @@ func c18Check(env *core.Env, ci any) (res core.Result) {
 func init() {
 	core.Register(&core.Prop{
 		ID:    "C18",
-		Rule:  "(a) white-box: rapid-generated type expressions up to depth 4 (structs of 1-6 fields over 19 primitives of 1..32 bytes, nested structs, fixed arrays, optionals, results, references, dynamic arrays, named types) laid out by mir.NewDataLayout(8) and (4); invariants on every sub-term: size multiple of a power-of-two alignment, struct fields aligned / ordered / pairwise disjoint / inside the struct, FieldOffset consistent, array size = len x element size, optional flag byte at SizeOf(inner) inside the optional, result discriminant at alignTo(max(ok,err), align) inside the result and outside both payloads. black-box: see evidence key 'blackbox'. non-trivial = a composite with >=3 distinct primitive widths incl. one >=16 bytes, or an optional following a narrower field; distinct = the rendered type expression (b) black-box (1 case in 40): rapid-generated programs with structs of 1-5 fields over 8/16/32/64-bit integers and bools (nested structs, small fixed arrays as fields), arrays of such structs and small-integer arrays between canary variables; element-wise, field-wise and whole stores, copies, by-value updates through a function; after every step every leaf of every variable is printed and compared with the reference interpreter (native executable)",
+		Rule:  "(a) white-box: rapid-generated type expressions up to depth 4 (structs of 1-6 fields over 19 primitives of 1..32 bytes, nested structs, fixed arrays, optionals, results, references, dynamic arrays, named types) laid out by mir.NewDataLayout(8) and (4); invariants on every sub-term: size multiple of a power-of-two alignment, struct fields aligned / ordered / pairwise disjoint / inside the struct, FieldOffset consistent, array size = len x element size, optional flag byte at SizeOf(inner) inside the optional, result discriminant at alignTo(max(ok,err), align) inside the result and outside both payloads. black-box: see evidence key 'blackbox'. non-trivial = a composite with >=3 distinct primitive widths incl. one >=16 bytes, or an optional following a narrower field; distinct = the rendered type expression (b) black-box (1 case in 40; structs of 1-7 fields, in half of the programs with a look-alike sibling struct - same field names, same first two and last fields, one or two middle fields of another width - that has its own variable, array, stores and copies): rapid-generated programs with structs of 1-5 fields over 8/16/32/64-bit integers and bools (nested structs, small fixed arrays as fields), arrays of such structs and small-integer arrays between canary variables; element-wise, field-wise and whole stores, copies, by-value updates through a function; after every step every leaf of every variable is printed and compared with the reference interpreter (native executable)",
 		Gen:   c18Gen,
 		New:   func() any { return &c18Case{} },
 		Check: c18Check,
